@@ -34,6 +34,7 @@ def units(tier):
     for rep in pools.REPS:
         us.append(("pool", rep))
     us.append(("local",))
+    us.append(("dst_flip",))
     return us
 
 
@@ -187,6 +188,14 @@ def run_unit(unit, ctx):
             ctx.traces += 1
             if got != want:
                 ctx.violation("to_epoch", {"rep": rep, "h24": pdesc["t"][1] == 24}, {"kind": "pool", "p": pdesc}, want, got)
+    elif u == "dst_flip":
+        # one process, one zone configuration, the is-dst answer changing over time (a DST transition)
+        for tz_o, alt_o in ((60, 120), (-300, -240), (0, 60), (-30, 30), (345, 345), (-210, -150), (570, 630)):
+            for seq in ((0, 1, 0, 1), (1, 0, 1), (1, 1, 0, -1, 1)):
+                for isdst in seq:
+                    ctx.state_count += 1
+                    check_env(ctx, -tz_o * 60, -alt_o * 60, 1, isdst)
+                check_env(ctx, -tz_o * 60, -alt_o * 60, 0, 1)
     elif u == "local":
         from metomi.isodatetime.parsers import TimePointParser
         p0 = impl.build_point({"rep": "cal", "f": [2000, 1, 1], "t": ["hms", 0, 0, 0], "tz": [0, 0]})
